@@ -320,3 +320,34 @@ def always_scans(fn, container_member):
     cfg = Cfg.of(fn)
     wit = cfg.must_pass_from((cfg.entry, -1), lambda e: e in starts)
     return lps, wit
+
+
+def impure_sites(fn):
+    """Nodes of fn that make it stateful: non-const static / thread_local locals, and references to mutable variables at
+    namespace scope (std:: objects such as std::cerr excepted)."""
+    out = []
+    for i in fn.walk():
+        nd = fn.nodes[i]
+        if nd['k'] == 'VarDecl' and (nd.get('static') or nd.get('tls')) and not nd.get('constexpr') and not (nd.get('const') and 'init' in nd):
+            out.append(i)
+        if nd['k'] == 'DeclRefExpr' and nd.get('g') and nd.get('dk') == 'Var' and 'cv' not in nd and not (nd.get('t') or '').startswith('const ') \
+                and not (nd.get('q') or '').startswith('std::'):
+            out.append(i)
+    return out
+
+
+def purity_obligations(ck, rule, fns, why):
+    """One obligation per function: it keeps no state between calls (so its result depends on its arguments — and, for
+    methods, the object — alone).  The typical violation is a memo / cache / scratch buffer with static storage."""
+    from sa.escape import short
+    n = 0
+    for f in fns:
+        if f is None:
+            continue
+        n += 1
+        ck.touch(f)
+        imp = impure_sites(f)
+        name = short(f.q).split('::')[-1] if '$' not in f.q else short(f.q).split('::', 1)[-1]
+        ck.ob(rule, '%s/%s' % (rule, name), not imp, f.loc(imp[0]) if imp else f.loc(),
+              '%s keeps no state between calls (no static / thread_local local, no mutable namespace-scope variable): %s' % (short(f.q), why))
+    return n
